@@ -116,6 +116,23 @@ Proof.
   rewrite H in E. injection E as <-. exact D.
 Qed.
 
+(* AddChannel (after the fix for finding C15-9) accepts exactly the frequencies the
+   NewChannelReq encoder accepts *)
+Theorem accepted_freq_newchannelreq ch f mx mn : 0 <= mx <= 15 -> 0 <= mn <= 15 ->
+  (valid_channel_freq f = true <-> exists bs, newchannelreq_marshal ch f mx mn = Ok bs).
+Proof.
+  intros Hx Hn. unfold valid_channel_freq, newchannelreq_marshal.
+  set (fr := if f >=? 2400000000 then f / 2 else f).
+  destruct (fr / 100 >=? 16777216) eqn:A.
+  { split; [lia|intros [bs E]; discriminate]. }
+  destruct (f mod 100 =? 0) eqn:M; cbn [negb].
+  2:{ split; [lia|intros [bs E]; discriminate]. }
+  destruct ((f >=? 2400000000) && negb (f mod 200 =? 0)) eqn:T.
+  { split; [lia|intros [bs E]; discriminate]. }
+  destruct (mx >? 15) eqn:D1; [lia|]. destruct (mn >? 15) eqn:D2; [lia|].
+  split; [intros _; eexists; reflexivity|intros _; lia].
+Qed.
+
 (* the window in which NewChannelReq is not lossless (finding C15-4 / C07-2) *)
 Theorem newchannelreq_refuted :
   exists bs, newchannelreq_marshal 3 1300000000 5 0 = Ok bs /\
